@@ -54,6 +54,9 @@ func (sp *SAMLServiceProvider) buildLogoutResponse(statusCodeValue string, reqID
 	statusCode.CreateAttr("Value", statusCodeValue)
 
 	doc := etree.NewDocument()
+	// Write carriage returns in text as character references so that the
+	// serialized message matches what was signed.
+	doc.WriteSettings.CanonicalText = true
 
 	// Only POST binding includes <Signature> in <AuthnRequest> (includeSig)
 	if includeSig {
